@@ -6,6 +6,8 @@ import re
 import vlib
 from units import broker_common
 
+SRC_TEXT = ['']
+
 def lit_name(bs):
     return 'lit_' + ''.join('%02x' % b for b in bs)
 
@@ -20,6 +22,13 @@ def rules(U, f, lits):
         return lit_name(bs) + '()'
     f.text, n = re.subn(r'b"((?:[^"\\]|\\.)*)"', lit, f.text)
     if n: U.log.rule('R11b', f, '%d byte-string literal(s)' % n)
+    # R11c: module-level `const NAME: &[u8] = b"..";` referenced by the function -> the same literal function (bytes from the source)
+    for cm in re.finditer(r'const (\w+): &\[u8\] = b"((?:[^"\\]|\\.)*)";', SRC_TEXT[0]):
+        if re.search(r'\b' + cm.group(1) + r'\b', f.text):
+            bs = bytes(cm.group(2), 'utf-8').decode('unicode_escape').encode('latin-1')
+            lits[lit_name(bs)] = bs
+            f.text = re.sub(r'\b' + cm.group(1) + r'\b', lit_name(bs) + '()', f.text)
+            U.log.rule('R11c', f, 'byte-string constant %s' % cm.group(1))
     # R-tostr: E.to_string().into_bytes() on a usize length -> shim_len_dec(E)
     f.text, n = re.subn(r'&(\w+(?:\.as_ref\(\))?\.len\(\))\.to_string\(\)\.into_bytes\(\)', r'&shim_len_dec(\1)', f.text)
     if n: U.log.rule('R-tostr', f, '%d usize::to_string().into_bytes()' % n)
@@ -35,6 +44,7 @@ REQ = '''    requires fits(written(old(writer)), enc(%(view)s))
 
 def build(U):
     E = U.src('src/protocol/encoder.rs')
+    SRC_TEXT[0] = E.text
     R = U.src('src/protocol/resp.rs')
     U.add('use vstd::prelude::*;\nverus! {\n')
     for n in ('BulkStr', 'Array', 'Resp'):
